@@ -149,3 +149,22 @@ package db
 //@   ensures !ctxHasTxn(ctx) ==> newTxns == old(newTxns) + 1
 //@   modifies newTxns, failed
 //@   tags C06
+//@
+//@ // ===== C10: reads, updates and deletes go through the access-control check first =====================
+//@ func (*collection).exists -> (exists, isDeleted, err)
+//@   assert before call#1 Get: res(checkAccessOfDocWithACP, 1, 0) && res(checkAccessOfDocWithACP, 1, 1) == nil
+//@   assert before call#1 checkAccessOfDocWithACP: arg2 == box(0)
+//@   ensures res(checkAccessOfDocWithACP, 1, 1) == nil && !res(checkAccessOfDocWithACP, 1, 0) ==> !exists && !isDeleted && err == nil
+//@   tags C10
+//@ func (*collection).update
+//@   assert before call#1 save: res(checkAccessOfDocWithACP, 1, 0) && res(checkAccessOfDocWithACP, 1, 1) == nil
+//@   assert before call#1 checkAccessOfDocWithACP: arg2 == box(1)
+//@   tags C10
+//@ func (*collection).applyDelete
+//@   assert before call#1 AddDelta: res(exists, 1, 0) && !res(exists, 1, 1) && res(exists, 1, 2) == nil
+//@   assert before call#1 AddDelta: res(checkAccessOfDocWithACP, 1, 0) && res(checkAccessOfDocWithACP, 1, 1) == nil
+//@   assert before call#1 checkAccessOfDocWithACP: arg2 == box(2)
+//@   tags C10
+//@ apply ErrFlow: (*collection).exists
+//@ func (*collection).exists
+//@   tolerates call#1 Get when is(e, corekv.ErrNotFound) "an absent primary key means the document does not exist: reported as (false, false, nil)"
